@@ -14,6 +14,7 @@ import io
 import tokenize
 
 from .. import cfg as cfgmod
+from ..cfg import atomic_facts
 from ..loader import AnalysisError, unparse, call_name
 from ..dataflow import forward, target_names, single_assign_subst
 from .C10 import parser_line_loop, check_default_t
@@ -152,6 +153,18 @@ def is_empty_test(e, taint, node):
     return False
 
 
+def _is_nonempty_test(e, taint, node):
+    """`c.strip()`, `len(c.strip()) > 0`, `c.strip() != ''` on comment-stripped text c: true iff the statement part is not empty"""
+    if isinstance(e, ast.Compare) and len(e.ops) == 1:
+        l, r, op = e.left, e.comparators[0], e.ops[0]
+        if isinstance(l, ast.Call) and call_name(l) == 'len' and isinstance(r, ast.Constant) and r.value == 0 and isinstance(op, (ast.Gt, ast.NotEq)):
+            return is_empty_test(ast.UnaryOp(op=ast.Not(), operand=l.args[0]), taint, node)
+        if isinstance(r, ast.Constant) and r.value == '' and isinstance(op, ast.NotEq):
+            return is_empty_test(ast.UnaryOp(op=ast.Not(), operand=l), taint, node)
+        return False
+    return is_empty_test(ast.UnaryOp(op=ast.Not(), operand=e), taint, node)
+
+
 def run(prog, check):
     check.explanation = EXPLANATION
     check.not_decided = 'the meaning of right-hand-side text; behaviour on malformed (non-documented) line forms'
@@ -190,6 +203,18 @@ def run(prog, check):
                         tgt = [b for b, l in g.succ[t.id] if l is False]
                         if n.id not in g.reach(tgt, avoid={taint.hdr.id}, include_src=True):
                             ok = True
+            if not ok:
+                # the same, stated as a branch-outcome fact: the test is reached only when the statement part is empty,
+                # in whichever polarity the emptiness was tested (`if stmt.strip(): ... elif <raw test>`)
+                tnodes = {id(x.ast): x for x in body_nodes if x.kind == 'test'}
+                for test, outcome in g.conditions_at(n):
+                    tn = tnodes.get(id(test))
+                    if tn is None:
+                        continue
+                    for _, val, e in atomic_facts(test, outcome):
+                        pos = e if val else ast.UnaryOp(op=ast.Not(), operand=e)
+                        if is_empty_test(pos, taint, tn) or (not val and _is_nonempty_test(e, taint, tn)):
+                            ok = True
             n1 += 1
             check.ob('C14.R1', '%s::branch(%s)' % (f.key, unparse(n.ast)), ok, '%s:%d' % (f.module.rel, n.line),
                      'raw-line test is conjoined with / dominated by "statement part empty"' if ok else
@@ -221,6 +246,13 @@ def run(prog, check):
         if isinstance(n, ast.Compare) and isinstance(n.left, ast.Name) and isinstance(n.comparators[0], ast.Constant) \
                 and n.comparators[0].value in ('endogenous', 'exogenous'):
             mode_vars.add(n.left.id)
+
+    # ... or a flag set under a test for the marker word
+    for nd_ in body_nodes:
+        if nd_.kind == 'stmt' and isinstance(nd_.ast, ast.Assign) and len(nd_.ast.targets) == 1 and isinstance(nd_.ast.targets[0], ast.Name):
+            if any(isinstance(c_, ast.Constant) and isinstance(c_.value, str) and c_.value.lower() == 'exogenous'
+                   for test_, _o in g.conditions_at(nd_) for c_ in ast.walk(test_)):
+                mode_vars.add(nd_.ast.targets[0].id)
 
     def class_stores(node):
         out = []
@@ -300,10 +332,15 @@ def run(prog, check):
             chain = replace_chain(n.value, rhs_var)
             if chain:
                 table.extend(chain)
-        if isinstance(n, ast.Call) and call_name(n) == 'find' and isinstance(n.func.value, ast.Name) and \
-                n.func.value.id == rhs_var and n.args and isinstance(n.args[0], ast.Constant):
+        if isinstance(n, ast.Call) and call_name(n) in ('find', 'index', 'partition', 'split', 'rfind') and isinstance(n.func.value, ast.Name) and \
+                n.func.value.id == rhs_var and n.args and isinstance(n.args[0], ast.Constant) and isinstance(n.args[0].value, str) \
+                and '(' in n.args[0].value:
             finds.append(n.args[0].value)
-    if len(finds) != 1:
+        if isinstance(n, ast.Compare) and len(n.ops) == 1 and isinstance(n.ops[0], (ast.In, ast.NotIn)) and isinstance(n.left, ast.Constant) \
+                and isinstance(n.left.value, str) and '(' in n.left.value and isinstance(n.comparators[0], ast.Name) and n.comparators[0].id == rhs_var \
+                and 'k' in n.left.value:
+            finds.append(n.left.value)
+    if len(set(finds)) != 1:
         raise AnalysisError('expected one lag-marker search on the RHS, found %s' % finds)
     marker = finds[0]
     templates = lag_templates(prog)
@@ -434,8 +471,15 @@ def run(prog, check):
             v = n.value
             ok = False
             why = 'unexpected transformation of the right-hand side: ' + unparse(v)
+            REWRITERS = ('replace', 'lower', 'upper', 'title', 'capitalize', 'swapcase', 'translate', 'format', 'join', 'casefold',
+                         'expandtabs', 'zfill', 'center', 'ljust', 'rjust')
+            rewriting = [c for c in ast.walk(v) if isinstance(c, ast.Call) and isinstance(c.func, ast.Attribute) and c.func.attr in REWRITERS]
+            sliced = [c for c in ast.walk(v) if isinstance(c, ast.Subscript) and isinstance(c.slice, ast.Slice)]
+            concat = [c for c in ast.walk(v) if isinstance(c, (ast.BinOp, ast.JoinedStr))]
             if isinstance(v, ast.Call) and call_name(v) == 'strip' and not v.args and isinstance(v.func.value, ast.Subscript):
                 ok, why = True, 'split part, stripped'
+            elif not rewriting and not sliced and not concat:
+                ok, why = True, 'a part of the statement / a copy, at most stripped'
             elif replace_chain(v, rhs_var):
                 ok = True
                 whys = []
@@ -456,6 +500,18 @@ def run(prog, check):
             ok = isinstance(v, ast.Subscript) and isinstance(v.slice, ast.Slice) and isinstance(v.value, ast.Name) and \
                 v.value.id == rhs_var and isinstance(v.slice.upper, ast.Name) and \
                 (v.slice.lower is None or (isinstance(v.slice.lower, ast.Constant) and v.slice.lower.value == 0))
+            if not ok and isinstance(v, ast.Name):
+                # the head of rhs.partition(marker) / rhs.split(marker, 1)
+                for a_ in ast.walk(loop):
+                    if isinstance(a_, ast.Assign) and len(a_.targets) == 1 and isinstance(a_.targets[0], (ast.Tuple, ast.List)) and \
+                            a_.targets[0].elts and isinstance(a_.targets[0].elts[0], ast.Name) and a_.targets[0].elts[0].id == v.id and \
+                            isinstance(a_.value, ast.Call) and call_name(a_.value) in ('partition', 'split') and \
+                            isinstance(a_.value.func.value, ast.Name) and a_.value.func.value.id == rhs_var and a_.value.args and \
+                            getattr(a_.value.args[0], 'value', None) == marker:
+                        ok = True
+            if not ok and isinstance(v, ast.Subscript) and isinstance(v.slice, ast.Constant) and v.slice.value == 0 and isinstance(v.value, ast.Call) \
+                    and call_name(v.value) in ('partition', 'split') and isinstance(v.value.func.value, ast.Name) and v.value.func.value.id == rhs_var:
+                ok = True
             check.ob('C14.R5', '%s::lagged-source-text' % f.key, ok, '%s:%d' % (f.module.rel, n.lineno),
                      'lag source is the text before the marker' if ok else 'lag source is not the text before the marker',
                      'X = Y(k-1)')
